@@ -9,7 +9,7 @@ use tree_sitter_highlight::{Highlight, HighlightConfiguration, HighlightEvent, H
 pub fn meta(tier: &str) -> CheckMeta {
     CheckMeta {
         id: "C17", level: "model_checking",
-        rule: "E-box: configurations {stmts with highlights + locals; tmpl with an arith injection in three variants (plain, include-children, combined); three layers tmpl -> combined text chunks as arith -> each parenthesised group as stmts (a node of the middle layer spans a directive)} x recognised-name lists {full, without definitions, keywords only} x sources {seeds, all strings of <=k lexemes, all strings of <=4 adversarial byte atoms incl. CR, CRLF, NUL, invalid UTF-8}; ONE Highlighter reused across all sources of a run. Oracle on the event stream: Source spans contiguous, increasing, covering [0,len) exactly once; start/end events never unbalanced and all closed at the end; every span emitted while a highlight of the injected language is open lies inside an injection content node (computed by our own evaluation on the parent tree); a reference that our own scope walk resolves to an earlier definition carries the definition's highlight. HtmlRenderer: tags stripped and the five entities decoded, the output equals the source after the documented normalisations (CR dropped, invalid UTF-8 replaced, final newline added). For stmts two more name lists leave out one kind of definition: a reference resolved to a definition without highlight keeps its own highlight. Non-trivial = sources with at least one highlight span.",
+        rule: "E-box: configurations {stmts with highlights + locals (locals query in two pattern orders: definitions first, reference first); tmpl with an arith injection in three variants (plain, include-children, combined); three layers tmpl -> combined text chunks as arith -> each parenthesised group as stmts (a node of the middle layer spans a directive)} x recognised-name lists {full, without definitions, keywords only} x sources {seeds, all strings of <=k lexemes, all strings of <=4 adversarial byte atoms incl. CR, CRLF, NUL, invalid UTF-8}; ONE Highlighter reused across all sources of a run. Oracle on the event stream: Source spans contiguous, increasing, covering [0,len) exactly once; start/end events never unbalanced and all closed at the end; every span emitted while a highlight of the injected language is open lies inside an injection content node (computed by our own evaluation on the parent tree); a reference that our own scope walk resolves to an earlier definition carries the definition's highlight. HtmlRenderer: tags stripped and the five entities decoded, the output equals the source after the documented normalisations (CR dropped, invalid UTF-8 replaced, final newline added). For stmts two more name lists leave out one kind of definition: a reference resolved to a definition without highlight keeps its own highlight. Non-trivial = sources with at least one highlight span.",
         assumptions: vec!["runs of U+FFFD are compared collapsed (how many replacement characters an invalid run yields is not documented)".into()],
         exhaustive: true,
         bounds: json!({"tier": tier, "lexeme_strings_k": if tier == "quick" { 3 } else { 4 }, "nested_piece_strings": if tier == "quick" { 4 } else { 5 }, "byte_atoms": 4}),
@@ -35,6 +35,16 @@ const STMTS_LOCALS: &str = r#"
 (params (identifier) @local.definition)
 (identifier) @local.reference
 "#;
+/// The same locals with the reference pattern FIRST: a definition node is then captured as a reference before it is
+/// captured as a definition (names variant 5).
+const STMTS_LOCALS_REF_FIRST: &str = r#"
+(identifier) @local.reference
+(block) @local.scope
+(fn_def) @local.scope
+(let_stmt name: (name) @local.definition)
+(params (identifier) @local.definition)
+"#;
+fn locals_for(variant: usize) -> &'static str { if variant == 5 { STMTS_LOCALS_REF_FIRST } else { STMTS_LOCALS } }
 const ARITH_HL: &str = r#"
 (number) @arith.number
 (var) @arith.var
@@ -48,7 +58,7 @@ const TMPL_HL: &str = r#"
 
 fn names(variant: usize) -> Vec<&'static str> {
     match variant {
-        0 => vec!["variable", "number", "comment", "keyword", "function", "operator", "definition.var", "definition.param", "text", "tag", "arith.number", "arith.var", "arith.operator", "arith.function"],
+        0 | 5 => vec!["variable", "number", "comment", "keyword", "function", "operator", "definition.var", "definition.param", "text", "tag", "arith.number", "arith.var", "arith.operator", "arith.function"],
         1 => vec!["variable", "number", "comment", "keyword", "function", "operator", "text", "tag", "arith.number", "arith.var"],
         2 => vec!["keyword", "tag", "arith"],
         // one kind of definition is not recognised: such a definition carries no highlight, and a reference that resolves to
@@ -184,7 +194,13 @@ fn check_source(cfg: &Cfg, hl: &mut Highlighter, parent_lang: &tree_sitter::Lang
             let n = &xt.nodes[i];
             let is_let_name = kind(i) == "name";
             let is_param = kind(i) == "identifier" && n.parent.map(|p| kind(p) == "params").unwrap_or(false);
-            if is_let_name || is_param { defs.push((scope_of(i), &src[n.start..n.end], n.start, idx_of(if is_let_name { "definition.var" } else { "definition.param" }))); }
+            if is_let_name || is_param {
+                let own = idx_of(if is_let_name { "definition.var" } else { "definition.param" });
+                defs.push((scope_of(i), &src[n.start..n.end], n.start, own));
+                // the definition itself is displayed with its own highlight (never with that of an outer definition of the
+                // same name it would resolve to as a reference)
+                if let Some(own) = own { if n.end > n.start && top_at[n.start] != Some(own) { fail(res, "local-definition-not-highlighted-as-itself", format!("definition at {}..{} should carry {:?} but carries {:?}", n.start, n.end, cfg.names.get(own), top_at[n.start].and_then(|h| cfg.names.get(h)))); } }
+            }
         }
         for i in 0..xt.nodes.len() {
             let n = &xt.nodes[i];
@@ -385,10 +401,10 @@ pub fn worker(ctx: &Ctx, res: &mut ShardResult) {
         check_c_api(ctx, &stmts.language, &docs, &mut idx, res);
         if res.too_many() { return; }
     }
-    for variant in 0..5usize {
+    for variant in 0..6usize {
         let nm = names(variant);
         let mut cfgs: Vec<(Cfg, tree_sitter::Language, Vec<Vec<u8>>)> = vec![];
-        let mut main = HighlightConfiguration::new(stmts.language.clone(), "stmts", STMTS_HL, "", STMTS_LOCALS).expect("stmts highlight config");
+        let mut main = HighlightConfiguration::new(stmts.language.clone(), "stmts", STMTS_HL, "", locals_for(variant)).expect("stmts highlight config");
         main.configure(&nm);
         let mut docs = crate::docs::docs(&stmts_z, k);
         docs.extend(byte_atom_strings(4));
@@ -464,7 +480,7 @@ pub fn replay(case: &Value) -> Vec<String> {
         let mut idx = 0usize;
         check_c_api(&ctx, &stmts.language, &[b"let a = 1;\nb;\n".to_vec(), src.clone()], &mut idx, &mut res);
     } else if cfg_name == "stmts" {
-        let mut main = HighlightConfiguration::new(stmts.language.clone(), "stmts", STMTS_HL, "", STMTS_LOCALS).expect("stmts highlight config");
+        let mut main = HighlightConfiguration::new(stmts.language.clone(), "stmts", STMTS_HL, "", locals_for(variant)).expect("stmts highlight config");
         main.configure(&nm);
         print_events(&main, None, None);
         check_source(&Cfg { name: "stmts", main, injected: None, names: nm.clone() }, &mut hl, &stmts.language, variant, &src, &mut res);
